@@ -68,6 +68,42 @@ func codecPairs(p *Prog) []codecPair {
 				}
 			}
 		}
+		if enc == nil || dec == nil {
+			// a type whose JSON methods build and read the wire struct themselves (the struct↔wire helpers inlined)
+			wireIn := func(fn *ssa.Function) *types.Named {
+				var found *types.Named
+				if fn == nil {
+					return nil
+				}
+				eachInstr(fn, func(in ssa.Instruction) {
+					if a, ok := in.(*ssa.Alloc); ok {
+						if ww := isWire(a.Type()); ww != nil {
+							found = ww
+						}
+					}
+				})
+				return found
+			}
+			var mj, uj *ssa.Function
+			for i := 0; i < nt.NumMethods(); i++ {
+				switch nt.Method(i).Name() {
+				case "MarshalJSON":
+					mj = p.SSA.FuncValue(nt.Method(i))
+				case "UnmarshalJSON":
+					uj = p.SSA.FuncValue(nt.Method(i))
+				}
+			}
+			if enc == nil {
+				if wm := wireIn(mj); wm != nil && (w == nil || w == wm) {
+					enc, w = mj, wm
+				}
+			}
+			if dec == nil && w != nil {
+				if wu := wireIn(uj); wu == w {
+					dec = uj
+				}
+			}
+		}
 		if enc != nil && dec != nil {
 			out = append(out, codecPair{T: nt, W: w, Enc: enc, Dec: dec, name: name})
 		}
@@ -151,8 +187,18 @@ func c01(r *Report, s *Sem) {
 	r.Trusted = append(r.Trusted, "well-formedness assumed for R3: request has method+uri, response has method+status, notification has event, message has content+type, session has state")
 
 	pairs := codecPairs(p)
-	if len(pairs) < 9 {
-		r.Undecided(R1, "anchor-unresolved:codec pairs", "-", fmt.Sprintf("found %d struct↔wire function pairs, expected 9", len(pairs)))
+	// the five envelope kinds and the two document wrappers must each have a struct↔wire pair (the base types Envelope
+	// and Command have one only as long as their part of the conversion is a function of its own)
+	for _, need := range []string{"Message", "Notification", "RequestCommand", "ResponseCommand", "Session", "DocumentContainer", "DocumentCollection"} {
+		found := false
+		for _, cp := range pairs {
+			if cp.name == need {
+				found = true
+			}
+		}
+		if !found {
+			r.Undecided(R1, "anchor-unresolved:codec pair of "+need, "-", "no struct→wire / wire→struct functions found for this type")
+		}
 	}
 	encWrites := map[string]map[*types.Var]bool{}
 	for _, cp := range pairs {
@@ -200,6 +246,12 @@ func c01(r *Report, s *Sem) {
 				if call, idx := callOf(l); call != nil && idx == 0 && call.Call.StaticCallee() == cp.Enc {
 					okM = true
 				}
+				// the method builds the wire struct itself
+				if cp.Enc == mj && typeIs(stripConv(l).Type(), cp.W) {
+					if _, isLocal := stripConv(l).(*ssa.Alloc); isLocal {
+						okM = true
+					}
+				}
 			}
 		})
 		r.Check(R2, "func "+fnName(mj)+" / marshals struct→wire result", p.pos(mj.Pos()), okM, whyM)
@@ -213,6 +265,9 @@ func c01(r *Report, s *Sem) {
 			if !typeIs(tgt.Type(), cp.W) {
 				whyU = "json.Unmarshal decodes into " + tgt.Type().String() + ", not *" + cp.W.Obj().Name()
 				return
+			}
+			if _, isLocal := tgt.(*ssa.Alloc); isLocal && cp.Dec == uj {
+				okU = true // the method reads the wire struct itself, from a local it decoded into
 			}
 			eachCall(uj, func(c2 ssa.CallInstruction) {
 				if staticCallee(c2) == cp.Dec && len(c2.Common().Args) == 2 && stripConv(c2.Common().Args[1]) == tgt {
